@@ -232,7 +232,8 @@ def public_export(kty_i: int, native_private: bool, has_d: bool, has_crt: bool, 
         except Exception:  # noqa
             return False
     if kty == "oct":
-        return True                      # a symmetric key has no public form (KeySet.as_dict keeps k by design)
+        # a symmetric key has no public form: KeySet.as_dict keeps k by design (open case), the key's own public export must drop it
+        return via_set or "k" not in out
     if any(m in out for m in PRIVATE[kty]):
         return False
     if any(isinstance(v, str) and v.endswith("-secret") for v in out.values()):
@@ -556,7 +557,8 @@ def replay(func, call):
         except Exception as e:  # noqa
             return {"violated": True, "key": "c12-public-export", "detail": "public export failed: %r" % (e,)}
         if kty == "oct":
-            return {"violated": False, "detail": "oct"}
+            bad = (not via_set) and "k" in out
+            return {"violated": bad, "key": "c12-public-export", "detail": "OctKey.as_dict(private=False) %s k" % ("contains" if bad else "does not contain")}
         leaked = [m for m in PRIVATE[kty] if m in out]
         bad = bool(leaked)
         detail = "as_dict(private=False) of %s key imported from %r contains %r" % (kty, sorted(d), leaked)
